@@ -189,7 +189,7 @@ func runC09(cx *Ctx, r *Report) {
 		// of the owner index (that is how an unauthenticated owner change would show)
 		ownerSensitive := ev.Kind == "store.delete" && hasPrefix(ev, tokOwnerIx) ||
 			ev.Kind == "store.set" && hasPrefix(ev, tokSymbol) && strings.Contains(keyArg(ev.Args[0], 0), "getTokenBy")
-		if signer != "msg.Authority" && (ownerRPC[e.Name] && isMutatingKind(ev.Kind) && !strings.Contains(ev.Fr.String(), "feeHandler") || ownerSensitive) {
+		if signer != "msg.Authority" && (ownerRPC[e.Name] && isMutatingKind(ev.Kind) && !inTokenFeeFrame(ev) || ownerSensitive) {
 			fs := facts()
 			f, ok := hasFact(fs, false, "("+signer+" != ", "#0.Owner)")
 			r.check(ok, "owner-guard", ekey+"|"+ev.Kind+"|"+strings.Join(ev.Prefix, ","), pos, "declared signer equals the recorded owner before "+ev.Kind+" ("+f.String()+")", ev.Kind+" reachable in "+e.Name+" without the fact signer == token owner on chain "+ev.Fr.String())
@@ -197,11 +197,22 @@ func runC09(cx *Ctx, r *Report) {
 		if e.Name == "MintToken" && ev.Kind == "bank.MintCoins" {
 			fs := facts()
 			_, ok1 := hasFact(fs, true, "#0.Mintable")
-			f2, ok2 := hasFact(fs, false, "math.Int.GT(", ".MaxSupply", "BankKeeper.GetSupply(")
+			// ¬(amount > cap − supply): the FIRST operand is the minted amount, the second mentions the cap and the supply
+			var f2 FactT
+			ok2 := false
+			for _, ft := range fs {
+				if ft.Holds || !strings.HasPrefix(ft.Text, "math.Int.GT(") || !strings.HasSuffix(ft.Text, ")") {
+					continue
+				}
+				as := splitTop(ft.Text[len("math.Int.GT("):len(ft.Text)-1], ", ")
+				if len(as) == 2 && !strings.Contains(as[0], ".MaxSupply") && strings.Contains(as[0], "msg.") && strings.Contains(as[1], ".MaxSupply") && strings.Contains(as[1], "BankKeeper.GetSupply(") {
+					f2, ok2 = ft, true
+				}
+			}
 			r.check(ok1, "mintable-guard", ekey, pos, "token.Mintable holds before MintCoins", "MintCoins reachable without the Mintable flag being tested true on chain "+ev.Fr.String())
 			r.check(ok2, "cap-guard", ekey, pos, "¬(amount > MaxSupply·10^scale − supply) holds before MintCoins ("+f2.String()+")", "MintCoins reachable without the cap comparison on chain "+ev.Fr.String())
 		}
-		if strings.HasPrefix(ev.Kind, "bank.") && strings.Contains(ev.Fr.String(), "feeHandler") {
+		if strings.HasPrefix(ev.Kind, "bank.") && inTokenFeeFrame(ev) {
 			feeEvents[ekey] = append(feeEvents[ekey], ev3{ev, w})
 		}
 		if e.Name == "BurnToken" && (strings.HasPrefix(ev.Kind, "bank.") || ev.Kind == "store.set" && hasPrefix(ev, tokBurn)) {
@@ -331,4 +342,15 @@ func (cx *Ctx) findEntryByKey(k string) *Entry {
 		}
 	}
 	return nil
+}
+
+// inTokenFeeFrame: the event happens inside one of the keeper's exported fee
+// deduction entry points (whatever internal helper they delegate to).
+func inTokenFeeFrame(ev *Event) bool {
+	for f := ev.Fr; f != nil; f = f.Parent {
+		if n := f.Fn.Name(); (n == "DeductIssueTokenFee" || n == "DeductMintTokenFee") && moduleOf(funcPkgPath(f.Fn)) == "token" {
+			return true
+		}
+	}
+	return false
 }
